@@ -22,6 +22,12 @@ Theorem C09_transfer_recovers : forall i e b j,
   pre_transfer i = true -> good_env e = true -> In j (all_crash_states e b i) -> healed (rounds 3 e j) = true.
 Proof. exact transfer_recovers. Qed.
 Print Assumptions C09_transfer_recovers.
+(* ... and nothing of the interrupted attempt is left beside the file: the first idle update of the restarted daemon (the tidy-up task
+   of DefaultNodeIO.idle_update) has removed the placeholder, as the uninterrupted transfer does itself *)
+Theorem C09_no_stale_placeholder : forall i e b j,
+  pre_transfer i = true -> good_env e = true -> In j (all_crash_states e b i) -> ph (rounds 3 e (killed j)) = false.
+Proof. exact no_stale_placeholder. Qed.
+Print Assumptions C09_no_stale_placeholder.
 (* a released copy is gone (record and bytes) one round after a kill anywhere in its deletion *)
 Theorem C09_release_recovers : forall i e b j,
   pre_release i = true -> dst_usable e = true -> del_ok e = true -> In j (all_crash_states e b i) -> gone (rounds 1 e j) = true.
